@@ -4,6 +4,7 @@ CONSTANTS
   Intervals = {1, 2, 3, 6}
   Offsets <- Q_Offsets
   SampledPos <- Q_SampledPos
+  SampledRel = FALSE
   TickVals = {0, 1, 2, 3, 5, 6}
   MaxTicks = 4
   RangePos <- Q_RangePos
